@@ -260,6 +260,8 @@ def install(B, LenV):
                     d, _ = k.cls.lookup("__lt__")
                     if d is None:
                         raise Raised(self.mkexc("TypeError", f"'<' not supported between instances of {k.cls.name!r}"))
+        if I.w.unordered_sort_ok and all(isinstance(k, (str, SymStr)) for k in keys):
+            return list(items)
         raise Unknown("sort order of abstract keys")
 
     @method
@@ -955,9 +957,33 @@ def _itertools_chain(B, I, *xs):
 
 
 def _re_compile(B, I, pat, flags=0):
+    """re.compile on a concrete pattern: match/search/fullmatch on concrete subjects are computed with the stdlib's re
+    (a pure library function, like the str methods); symbolic patterns or subjects are UNDECIDED."""
+    import re as _re
     o = ExtV("re.Pattern")
     o.attrs["pattern"] = pat
     o.attrs["__class__"] = B.ext_attr(B.ext_module("re"), "Pattern")
+    if isinstance(pat, str) and isinstance(flags, int):
+        try:
+            rx = _re.compile(pat, flags)
+        except _re.error as e:
+            raise Raised(B.mkexc("ValueError", f"re.error: {e}"))
+
+        def mk(kind):
+            def f(I_, self_, subject, *a):
+                if not isinstance(subject, str):
+                    raise Unknown("regular expression applied to a symbolic string")
+                m = getattr(rx, kind)(subject)
+                if m is None:
+                    return None
+                mo = ExtV("re.Match")
+                mo.attrs["__match__"] = m.group(0)
+                mo.methods["group"] = lambda I2, s2, *g: m.group(*g)
+                return mo
+            return f
+
+        for kind in ("match", "search", "fullmatch"):
+            o.methods[kind] = mk(kind)
     return o
 
 
